@@ -211,7 +211,7 @@ L2Q, L2T = (50, 2), (600, 4)
 PLANS = {
     "C01": dict(mc=MC("sync", "mixed", thorough=["t_sync"]) + MCA("2p"), spec_l1l0=True, runs=[R("general", (250, 4000), (3, 6), "C01", True), R("sync", (150, 2000), (3, 6), "C01", True),
                       R("async", (150, 2000), (3, 6), "C01", True), R("chain", (100, 2000), (2, 6), "C01", True)]),
-    "C02": dict(mc=MC("sync", "mixed", thorough=["t_sync"], bounded=["t_sync4"]), spec_l2l1=True, runs=[R("chain_s", (250, 4000), (3, 6), "C02", True), R("fifo", (250, 5000), (4, 8), "C02"), R("general", (150, 2000), (3, 5), "C02")]),
+    "C02": dict(mc=MC("sync", "mixed", thorough=["t_sync"], bounded=["t_sync4"]), spec_l1l0=True, spec_l2l1=True, runs=[R("chain_s", (250, 4000), (3, 6), "C02", True), R("fifo", (250, 5000), (4, 8), "C02"), R("general", (150, 2000), (3, 5), "C02")]),
     "C03": dict(mc=MC("mixed", "async", thorough=["t_async"], bounded=["t_mixed"]) + MCA("2p"), spec_replay=True, spec_l1l0=True, spec_l2l1=True, runs=[R("general", (400, 8000), (3, 6), None, True), R("sync", (150, 2000), (3, 6), None, True),
                       R("async", (150, 3000), (3, 6), None, True), R("timed", (150, 3000), (3, 6), None, True),
                       R("chain", (150, 3000), (2, 6), None, True), R("close", (200, 3000), (3, 6), None, True),
@@ -234,16 +234,16 @@ PLANS = {
                         rawmon=[("HBMonitor", "HBMonitor.cfg")]),
                       R("discrace", (0, 0), (1, 1), None, False, programs_fn=discrace_sweep(12, (40, 60), "discrace07"), rawmon=[("HBMonitor", "HBMonitor.cfg")])],
                 assume=["happens-before is computed from the orderings actually passed to the atomics on sequentially consistent interleavings; stale relaxed reads of weaker-than-SC executions are not enumerated"]),
-    "C08": dict(mc=MC("sync", thorough=["t_sync"]), runs=[R("capacity", (300, 5000), (3, 6), "C08", True), R("general", (150, 2000), (3, 5), "C08", True),
+    "C08": dict(mc=MC("sync", thorough=["t_sync"]), spec_l1l0=True, runs=[R("capacity", (300, 5000), (3, 6), "C08", True), R("general", (150, 2000), (3, 5), "C08", True),
                                                            R("chain_z", (200, 3000), (2, 4), "C08", True), R("chain_s", (100, 2000), (2, 4), "C08", True)]),
-    "C10": dict(mc=MC("sync", "timed", "closeclone", thorough=["t_sync"], bounded=["t_timed"]), spec_l2l1=True, runs=[R("close", (300, 5000), (3, 6), "C10", True), R("general", (150, 2000), (3, 5), "C10", True),
+    "C10": dict(mc=MC("sync", "timed", "closeclone", thorough=["t_sync"], bounded=["t_timed"]), spec_l1l0=True, spec_l2l1=True, runs=[R("close", (300, 5000), (3, 6), "C10", True), R("general", (150, 2000), (3, 5), "C10", True),
                       R("discrace", (0, 0), (1, 1), "C10", True, own_all=True, programs_fn=discrace_sweep(48, (40, 60), "discrace10"))]),
-    "C11": dict(mc=MC("handles", "closeclone", bounded=["t_handles"]), runs=[R("hseq", (0, 0), (1, 1), "C11", True, programs_fn=handle_programs, own_all=True),
+    "C11": dict(mc=MC("handles", "closeclone", bounded=["t_handles"]), spec_l1l0=True, runs=[R("hseq", (0, 0), (1, 1), "C11", True, programs_fn=handle_programs, own_all=True),
                                         R("disconnect", (300, 5000), (3, 6), "C11", True), R("general", (150, 2000), (3, 5), "C11", True),
                                         R("discrace", (0, 0), (1, 1), "C11", True, own_all=True, programs_fn=discrace_sweep(48, (40, 60), "discrace11"))]),
-    "C12": dict(mc=MC("handles", "closeclone", bounded=["t_handles"]) + MCA("1p"), runs=[R("hseq", (0, 0), (1, 1), "C12", True, programs_fn=handle_programs, own_all=True),
+    "C12": dict(mc=MC("handles", "closeclone", bounded=["t_handles"]) + MCA("1p"), spec_l1l0=True, runs=[R("hseq", (0, 0), (1, 1), "C12", True, programs_fn=handle_programs, own_all=True),
                                         R("handles", (300, 5000), (3, 6), "C12", True)]),
-    "C13": dict(mc=MC("timed", bounded=["t_timed"]), runs=[R("timed", (400, 6000), (4, 8), "C13", True), R("chain", (150, 3000), (2, 6), "C13", True),
+    "C13": dict(mc=MC("timed", bounded=["t_timed"]), spec_l1l0=True, runs=[R("timed", (400, 6000), (4, 8), "C13", True), R("chain", (150, 3000), (2, 6), "C13", True),
                                                            R("lockhold", (0, 0), (1, 1), "C13", True, own_all=True, programs_fn=lockhold_sweep(24, (12, 16), "lockhold13"))]),
     "C04": dict(mc=MC("mixed"), runs=[R("integrity_" + pl, (n, n * 12), (2, 4), "C04", True, own_all=True)
                                       for pl, n in (("u8", 260), ("u16", 120), ("w1", 60), ("h4", 60), ("b3", 60), ("p5", 60), ("z0", 40), ("z64", 40))]
@@ -251,7 +251,7 @@ PLANS = {
                 assume=["bit patterns: u8 exhaustive (every value on rotating paths), u16 boundary + random, larger classes checksum-tagged ids; the TLA+ side carries identities, bytes are compared by the harness projection id <-> bytes"]),
     "C06": dict(mc=MC("sync", "async", "live_sync", "live_async", "live_timed", thorough=["t_sync", "t_async"]), spec_replay=True, runs=[R("progress", (500, 8000), (3, 6), "ALL", True, own_all=True), R("chain", (100, 2000), (2, 4), None, True, own_all=True),
                                                                 R("waiters", (250, 5000), (2, 4), None, True, own_all=True)]),
-    "C09": dict(mc=MC("mixed", bounded=["t_mixed"]), runs=[R("mixed", (400, 8000), (3, 6), "C09", True, own_all=True),
+    "C09": dict(mc=MC("mixed", bounded=["t_mixed"]), spec_l1l0=True, runs=[R("mixed", (400, 8000), (3, 6), "C09", True, own_all=True),
                                       R("hseq", (0, 0), (1, 1), "C09", True, programs_fn=handle_programs, own_all=True)]),
     "C14": dict(mc=MC("try"), runs=[R("try", (300, 6000), (3, 6), None, True, rawmon=[("NonBlocking", "NonBlocking.cfg")]),
                                     R("tryfreeze", (300, 6000), (2, 4), None, True, rawmon=[("NonBlocking", "NonBlocking.cfg")]),
@@ -259,7 +259,7 @@ PLANS = {
     "C15": dict(mc=MC("async", thorough=["t_async"]), runs=[R("fdrop", (400, 8000), (4, 8), "C15", True), R("chain", (200, 3000), (2, 6), "C15", True, own_all=True),
                                       R("fdropfreeze", (0, 0), (1, 1), "C15", True, programs_fn=freeze_sweep("fdrop", (10, 150), (30, 45), "fdropfreeze15"),
                                         rawmon=[("HBMonitor", "HBMonitor.cfg")])]),
-    "C16": dict(mc=MC("async", thorough=["t_async"]), runs=[R("poll", (400, 8000), (4, 8), "C16", True),
+    "C16": dict(mc=MC("async", thorough=["t_async"]), spec_l1l0=True, runs=[R("poll", (400, 8000), (4, 8), "C16", True),
                                       R("pollfreeze", (0, 0), (1, 1), "C16", True, programs_fn=freeze_sweep("poll", (14, 200), (30, 45), "pollfreeze"))]),
     "C17": dict(mc=[dict(module="SpinMutex", cfg=("MC_SpinMutex.cfg", "MC_SpinMutex.cfg")),
                     dict(module="SpinCond", cfg=("MC_SpinCond.cfg", "MC_SpinCond.cfg"), workers=(2, 2))], l2=False, tlaps="SpinMutexProof",
